@@ -60,7 +60,9 @@ ZERO_PARTITION = {'cpu': 0, 'memory': 0, 'disk': 0, 'limits': []}
 
 
 class Model:
-    """What the harness knows to be stored.
+    """What is stored, as read back through the API after every op (so that
+    the "other reservations" of a later request are the ones the directory
+    really holds, with whatever traits they carry).
 
     res:   (alloc, cell) -> {'partition', 'cpu', 'memory', 'disk' (ints),
                              'traits' (sorted list), 'text' {dim: str}}
@@ -165,24 +167,13 @@ class Model:
         return [res, parts]
 
 
-def compare_stored(expected, stored_obj):
-    """Compare a model reservation with what the API returned for it.
-
-    Returns None or the name of the first field that differs.  Quantities are
-    compared as quantities (the spelling may legitimately be normalised),
-    traits as sets.
-    """
-    if stored_obj is None:
-        return 'missing'
+def stored_record(obj):
+    """A reservation object as the API lists it -> model record, parsed with
+    the harness's own parser (raises Unparsable)."""
+    rec = {'partition': obj.get('partition', DEFAULT_PARTITION),
+           'traits': sorted(obj.get('traits', [])),
+           'text': {}}
     for dim in DIMS:
-        try:
-            got = parse_dim(dim, stored_obj.get(dim))
-        except Unparsable:
-            return dim
-        if got != expected[dim]:
-            return dim
-    if stored_obj.get('partition') != expected['partition']:
-        return 'partition'
-    if sorted(stored_obj.get('traits', [])) != expected['traits']:
-        return 'traits'
-    return None
+        rec[dim] = parse_dim(dim, obj.get(dim))
+        rec['text'][dim] = obj.get(dim)
+    return rec
